@@ -23,6 +23,9 @@ class FrameFragmentCache:
     def remove(self, stream_id: int):
         self._frames_by_stream_id.pop(stream_id, None)
 
+    def has_partial_frame(self, stream_id: int) -> bool:
+        return stream_id in self._frames_by_stream_id
+
     def _frame_fragment_builder(self, next_fragment: FragmentableFrame) -> FragmentableFrame:
 
         current_frame_from_fragments = self._frames_by_stream_id.get(next_fragment.stream_id)
